@@ -4,7 +4,7 @@ import re
 
 from . import obs as O
 
-EV_RE = re.compile(r"^(S|X|Y|R|E|cc|cd|cr|ck|ec|ed|er|ek)(\??)(\d+)(.*)$")
+EV_RE = re.compile(r"^(S|X|Y|N|R|E|cc|cd|cr|ck|ec|ed|er|ek)(\??)(\d+)(.*)$")
 PULL_RE = re.compile(r"^P(\d+):(\d+)$")
 
 
@@ -33,6 +33,7 @@ class TaskInfo:
         self.S = self.X = self.R = self.E = None      # steps
         self.nX = 0
         self.Y = []                 # steps at which the worker caught a CancelledError and went on running
+        self.N = []                 # steps at which the worker's awaited future completed and it went on to its next await
         self.seq = {}               # event kind -> global sequence number of its first occurrence
         self.arg = None
         self.cc = []                # (step, r, c, e, reg)
@@ -43,7 +44,12 @@ class TaskInfo:
 
 
 def spec_of(toks):
-    return dict(mode=toks[0], swallow=toks[1] == "1", resume=toks[1] == "2", ecb=toks[2], ccb=toks[3], bad=toks[4] == "1", coro=toks[5] == "1",
+    # worker mode `g1` / `g2` = a gated worker with that many further suspension points: for every monitor it is a gated
+    # worker (`mode` "g"); the number is kept beside it
+    mode, awaits = toks[0], 0
+    if mode[:1] == "g":
+        mode, awaits = "g", int(mode[1:] or 0)
+    return dict(mode=mode, awaits=awaits, swallow=toks[1] == "1", resume=toks[1] == "2", ecb=toks[2], ccb=toks[3], bad=toks[4] == "1", coro=toks[5] == "1",
                 hooks=toks[6])
 
 
@@ -188,7 +194,7 @@ class Story:
                 if inner.startswith("name:"):
                     # an `apply` made from user code: gated worker, no callbacks, generated name
                     self._new_req(ps, Req(len(ps.reqs), "apply", inner[5:], j, num=None, via_hook=True,
-                                          spec=dict(mode="g", swallow=False, resume=False, ecb="n", ccb="n", bad=False, coro=True, hooks="-")))
+                                          spec=dict(mode="g", awaits=0, swallow=False, resume=False, ecb="n", ccb="n", bad=False, coro=True, hooks="-")))
                 continue
             m = EV_RE.match(e)
             if not m:
@@ -210,6 +216,8 @@ class Story:
                 t.nX += 1
             elif kind == "Y":
                 t.Y.append(j)           # caught a CancelledError and went on: still running
+            elif kind == "N":
+                t.N.append(j)           # went on to its next await: still running, nothing has ended
             elif kind == "R":
                 t.R = j
             elif kind == "E":
